@@ -183,12 +183,20 @@ def run_raw(ctx):
         cons.append(con)
         ctx.out.count('raw:elf:' + name)
     models = ctx.driver.ask_many(reqs)
-    for rq, con, m in zip(reqs, cons, models):
-        if 'fatal' in m:
-            raise RuntimeError('driver: %s on %r' % (m['fatal'], rq))
+    # the same bytes through the *Spec* construct: by the C16 theorems its answer is the standard's
+    # (value and consumed length for complete encodings, parse error for truncated / reserved ones)
+    specs = ctx.driver.ask_many([dict(r, spec=True) for r in reqs])
+    for rq, con, m, sp in zip(reqs, cons, models, specs):
+        if 'fatal' in m or 'fatal' in sp:
+            raise RuntimeError('driver: %s on %r' % (m.get('fatal', sp.get('fatal')), rq))
         data = bytes.fromhex(rq['hex'])
         impl = run_impl(lambda: impl_parse(con, data, rq['pos']))
-        compare(ctx, 'raw', {'name': rq['name'], 'cfg': rq['cfg'], 'hex': rq['hex'], 'pos': rq['pos']}, impl, m.get('model'))
+        case = {'name': rq['name'], 'bundle': rq['bundle'], 'cfg': rq['cfg'], 'hex': rq['hex'], 'pos': rq['pos']}
+        ctx.out.case(case)
+        if impl != sp.get('model'):
+            ctx.out.violation('property', 'raw', case, expect=sp.get('model'), got=impl, model=m.get('model'))
+        elif impl != m.get('model'):
+            ctx.out.violation('correspondence', 'raw', case, got=impl, model=m.get('model'))
 
 
 def run_cstr(ctx):
@@ -238,7 +246,7 @@ def replay(ctx, payload):
         res.update(impl=impl, expect=r['expect'], model=m.get('model'), fails=(impl != {'ok': r['expect']}))
     elif v['stream'] == 'raw':
         le, cfg = case['cfg'][0], case['cfg']
-        if len(cfg) == 4:
+        if case.get('bundle', 'dwarf' if len(cfg) == 4 else 'elf') == 'dwarf':
             ds = dwarf_structs(cfg[0], cfg[1], cfg[2], cfg[3])
             nm = case['name']
             con = ds.Dwarf_dw_form[nm.split(':', 1)[1]] if ':' in nm else getattr(ds, nm)('')
@@ -248,8 +256,10 @@ def replay(ctx, payload):
             kind = 'elf'
         data = bytes.fromhex(case['hex'])
         impl = run_impl(lambda: impl_parse(con, data, case['pos']))
-        m = ctx.driver.ask({'p': 'con', 'bundle': kind, 'cfg': cfg, 'name': case['name'], 'hex': case['hex'], 'pos': case['pos']})
-        res.update(impl=impl, model=m.get('model'), fails=(impl != m.get('model')))
+        rq = {'p': 'con', 'bundle': kind, 'cfg': cfg, 'name': case['name'], 'hex': case['hex'], 'pos': case['pos']}
+        m = ctx.driver.ask(rq)
+        sp = ctx.driver.ask(dict(rq, spec=True))
+        res.update(impl=impl, model=m.get('model'), expect=sp.get('model'), fails=(impl != sp.get('model')))
     else:
         from elftools.common.utils import parse_cstring_from_stream
         data = bytes.fromhex(case['hex'])
